@@ -30,6 +30,8 @@ import (
 	"github.com/snapcore/snapd/asserts"
 	"github.com/snapcore/snapd/asserts/assertstest"
 	"github.com/snapcore/snapd/asserts/snapasserts"
+	"github.com/snapcore/snapd/bootloader"
+	"github.com/snapcore/snapd/bootloader/bootloadertest"
 	"github.com/snapcore/snapd/dirs"
 	"github.com/snapcore/snapd/overlord/assertstate"
 	"github.com/snapcore/snapd/internal/verifsim"
@@ -438,6 +440,9 @@ func verifBodyHistory(s *verifEngC, gc *check.C) {
 				}
 			}
 			s.bl.SetBootVars(vars)
+			if c.Active("C12") && len(bseq) > 1 && c.Draw("uc20-plan-probe", 3) == 2 {
+				verifC12UC20PlanProbe(s, st, bseq, before.Current.N, nextRev)
+			}
 		}
 		var ts *state.TaskSet
 		var err error
@@ -924,6 +929,90 @@ func verifBodyHistory(s *verifEngC, gc *check.C) {
 			}
 		}
 		st.Unlock()
+	}
+}
+
+// verifC12UC20PlanProbe: the same kernel snap on a device that boots with a
+// run-mode bootloader (UC20): the bootloader names the kernel it boots and,
+// possibly, a kernel to try next, under every kernel_status value. A refresh
+// to a new revision is planned (task set built, never run) and the
+// discard-snap tasks in it must not name a revision the bootloader refers to.
+func verifC12UC20PlanProbe(s *verifEngC, st *state.State, kept []int, current, newRev int) {
+	c := s.ctx
+	bl := bootloadertest.Mock("mock", filepath.Join(dirs.GlobalRootDir, "verif-uc20-bl")).WithExtractedRunKernelImage()
+	bootloader.Force(bl)
+	defer bootloader.Force(s.bl)
+	run := kept[c.Draw("uc20-running-kernel", len(kept))]
+	inUse := map[int]bool{run: true}
+	defer bl.SetEnabledKernel(snap.MinimalPlaceInfo("kernel", snap.R(run)))()
+	try := 0
+	if c.Draw("uc20-has-try-kernel", 3) != 0 {
+		try = kept[c.Draw("uc20-try-kernel", len(kept))]
+		if try != run {
+			defer bl.SetEnabledTryKernel(snap.MinimalPlaceInfo("kernel", snap.R(try)))()
+			inUse[try] = true
+		} else {
+			try = 0
+		}
+	}
+	status := []string{"", "try", "trying"}[c.Draw("uc20-kernel-status", 3)]
+	bl.SetBootVars(map[string]string{"kernel_status": status})
+	deviceCtx := &snapstatetest.TrivialDeviceContext{DeviceModel: MakeModel20("brand-gadget", nil), CtxStore: s.fakeStore}
+	defer snapstatetest.MockDeviceContext(deviceCtx)()
+	if s.fakeStore.refreshRevnos == nil {
+		s.fakeStore.refreshRevnos = map[string]snap.Revision{}
+	}
+	prev, hadPrev := s.fakeStore.refreshRevnos["kernel-id"]
+	s.fakeStore.refreshRevnos["kernel-id"] = snap.R(newRev)
+	defer func() {
+		if hadPrev {
+			s.fakeStore.refreshRevnos["kernel-id"] = prev
+		} else {
+			delete(s.fakeStore.refreshRevnos, "kernel-id")
+		}
+	}()
+	ts, err := snapstate.UpdateWithDeviceContext(st, "kernel", nil, s.user.ID, snapstate.Flags{}, nil, deviceCtx, "")
+	c.Count("probe:uc20-refresh-planned")
+	if try != 0 {
+		c.Count("probe:uc20-refresh-planned-with-try-kernel:status=" + status)
+	}
+	if err != nil {
+		c.Logf("  uc20 plan probe: kept=%v running=%d try=%d status=%q: %v", kept, run, try, status, err)
+		c.Count("probe:uc20-refresh-plan-refused")
+		return
+	}
+	// (the plan is only read: its change is aborted before anything runs)
+	probeChg := st.NewChange("verif-plan-probe", "planned UC20 kernel refresh")
+	probeChg.AddAll(ts)
+	defer probeChg.Abort()
+	var discarded []int
+	for _, t := range ts.Tasks() {
+		if t.Kind() != "discard-snap" {
+			continue
+		}
+		snapsup, err := snapstate.TaskSnapSetup(t)
+		if err != nil {
+			c.Violate("C12/plan-unreadable", "cannot read the snap setup of a planned discard-snap task: %v", err)
+			continue
+		}
+		discarded = append(discarded, snapsup.Revision().N)
+		if inUse[snapsup.Revision().N] {
+			what := "the kernel the bootloader boots"
+			if snapsup.Revision().N == try {
+				what = fmt.Sprintf("the kernel the bootloader is to try next (kernel_status=%q)", status)
+			}
+			c.Violate("C12/in-use-revision-discarded", "UC20: a refresh of the kernel (kept %v, current %d) to new revision %d plans to discard revision %d, which is %s", kept, current, newRev, snapsup.Revision().N, what)
+		}
+	}
+	kinds := ""
+	if os.Getenv("VERIF_DEBUG") != "" {
+		for _, t := range ts.Tasks() {
+			kinds += " " + t.Kind()
+		}
+	}
+	c.Logf("  uc20 plan probe: kept=%v current=%d running=%d try=%d status=%q -> discards %v%s", kept, current, run, try, status, discarded, kinds)
+	if len(discarded) > 0 {
+		c.Nontrivial()
 	}
 }
 
